@@ -354,7 +354,7 @@ pub fn generate(prop: &str, rng: &mut Rng, skip_fast: bool, run_index: u64) -> (
         "C02" | "C10" | "C19" => 0,
         "C04" | "C12" => 1,
         "C05" => rng.weighted(&[7, 0, 3]),
-        "C06" if !crate::gen::tiny() || run_index % 4 == 0 => rng.weighted(&[6, 3, 2, 1]),
+        "C06" if !crate::gen::tiny() || run_index % 4 == 0 => rng.weighted(&[6, 3, 2, 3]),
         "C06" | "C18" => rng.weighted(&[6, 3, 2]),
         _ => rng.weighted(&[5, 4, 0]),
     };
@@ -387,6 +387,7 @@ pub fn generate(prop: &str, rng: &mut Rng, skip_fast: bool, run_index: u64) -> (
                     p.switch_methods = rng.chance(1, 4);
                 }
                 "C06" => p.switch_methods = rng.chance(1, 4),
+                "C17" => p.peek = rng.chance(1, 3),
                 "C10" => {
                     // faults concentrated in the first bytes
                     p.seg = rng.pick(&[0u8, 0, 1, 2, 4]);
@@ -433,6 +434,7 @@ pub fn generate(prop: &str, rng: &mut Rng, skip_fast: bool, run_index: u64) -> (
                     p.submin = rng.chance(1, 3);
                     p.submin_any_kind = true;
                 }
+                "C17" => p.peek = rng.chance(1, 3),
                 _ => {}
             }
             (Case::Enc { spec, ops: Vec::new() }, p)
@@ -716,6 +718,42 @@ fn ladder() -> Vec<usize> {
     v
 }
 
+/// C17: the values of a query over the whole ladder, folded into the run's
+/// transcript (a panic is a value too: the assertion-carrying build must not
+/// panic where the other build answers, and vice versa).
+fn ladder_digest(name: &str, d: &std::cell::RefCell<crate::rng::Digest>, f: &dyn Fn(usize) -> Option<usize>) {
+    let mut line = String::new();
+    for n in ladder() {
+        let r = crate::sink::guard(|| f(n));
+        let mut d = d.borrow_mut();
+        match r {
+            Ok(Some(x)) => {
+                d.byte(1);
+                d.usize(x);
+                if crate::sink::log_calls() {
+                    line.push_str(&format!(" {}->{}", n, x));
+                }
+            }
+            Ok(None) => {
+                d.byte(2);
+                if crate::sink::log_calls() {
+                    line.push_str(&format!(" {}->None", n));
+                }
+            }
+            Err(_) => {
+                let p = crate::sink::take_panic();
+                d.byte(3);
+                if crate::sink::log_calls() {
+                    line.push_str(&format!(" {}->PANIC({})", n, p));
+                }
+            }
+        }
+    }
+    if crate::sink::log_calls() {
+        crate::sink::log_call(format!("query {}:{}", name, line));
+    }
+}
+
 fn check_ladder(name: &str, f: &dyn Fn(usize) -> Option<usize>) -> Vec<Viol> {
     let mut v = Vec::new();
     let mut prev: Option<(usize, Option<usize>)> = None;
@@ -767,11 +805,20 @@ fn exec_dec(prop: &str, spec: &DecSpec, source: &mut dyn OpSource) -> RunOut {
         1 => check_ladder("max_utf8_buffer_length_without_replacement", &|n| d.max_utf8_buffer_length_without_replacement(n)),
         _ => check_ladder("max_utf16_buffer_length", &|n| d.max_utf16_buffer_length(n)),
     };
+    let qd = std::cell::RefCell::new(crate::rng::Digest::new());
+    let mut peek17 = |d: &Decoder, _s: &DecSpec, _calls: &[CallRec], _consumed: usize, _pending: &[u8], _what: u8| {
+        ladder_digest("max_utf8_buffer_length", &qd, &|n| d.max_utf8_buffer_length(n));
+        ladder_digest("max_utf8_buffer_length_without_replacement", &qd, &|n| d.max_utf8_buffer_length_without_replacement(n));
+        ladder_digest("max_utf16_buffer_length", &qd, &|n| d.max_utf16_buffer_length(n));
+        Vec::new()
+    };
     let run = match prop {
         "C19" => drive_dec(spec, mode, source, Some(&mut peek19)),
         "C07" => drive_dec(spec, mode, source, Some(&mut peek07)),
+        "C17" => drive_dec(spec, mode, source, Some(&mut peek17)),
         _ => drive_dec(spec, mode, source, None),
     };
+    let query_digest = qd.borrow().0;
     let mut viols = run.viols.clone();
     let n = spec.stream.len();
     let complete = run.aborted.is_none();
@@ -1000,7 +1047,7 @@ fn exec_dec(prop: &str, spec: &DecSpec, source: &mut dyn OpSource) -> RunOut {
         faults: run.faults.clone(),
         probes: run.probes.clone(),
         sig: run.sig.finish(),
-        transcript: run.transcript.finish(),
+        transcript: if prop == "C17" { crate::rng::mix64(run.transcript.finish() ^ query_digest) } else { run.transcript.finish() },
         nontrivial: run.nontrivial,
         aborted: run.aborted.clone(),
         finished: run.finished,
@@ -1021,7 +1068,20 @@ fn exec_enc(prop: &str, spec: &EncSpec, source: &mut dyn OpSource) -> RunOut {
         2 => check_ladder("max_buffer_length_from_utf16_without_replacement", &|n| e.max_buffer_length_from_utf16_without_replacement(n)),
         _ => check_ladder("max_buffer_length_from_utf16_if_no_unmappables", &|n| e.max_buffer_length_from_utf16_if_no_unmappables(n)),
     };
-    let run = if prop == "C07" { drive_enc(spec, mode, source, Some(&mut peek07)) } else { drive_enc(spec, mode, source, None) };
+    let qd = std::cell::RefCell::new(crate::rng::Digest::new());
+    let mut peek17 = |e: &Encoder, _what: u8| {
+        ladder_digest("max_buffer_length_from_utf8_without_replacement", &qd, &|n| e.max_buffer_length_from_utf8_without_replacement(n));
+        ladder_digest("max_buffer_length_from_utf8_if_no_unmappables", &qd, &|n| e.max_buffer_length_from_utf8_if_no_unmappables(n));
+        ladder_digest("max_buffer_length_from_utf16_without_replacement", &qd, &|n| e.max_buffer_length_from_utf16_without_replacement(n));
+        ladder_digest("max_buffer_length_from_utf16_if_no_unmappables", &qd, &|n| e.max_buffer_length_from_utf16_if_no_unmappables(n));
+        Vec::new()
+    };
+    let run = match prop {
+        "C07" => drive_enc(spec, mode, source, Some(&mut peek07)),
+        "C17" => drive_enc(spec, mode, source, Some(&mut peek17)),
+        _ => drive_enc(spec, mode, source, None),
+    };
+    let query_digest = qd.borrow().0;
     let mut viols = run.viols.clone();
     let nchars = spec.text.len();
     let units = if spec.form16 { text_to_utf16(&spec.text).0.len() } else { text_to_utf8(&spec.text).0.len() };
@@ -1143,7 +1203,7 @@ fn exec_enc(prop: &str, spec: &EncSpec, source: &mut dyn OpSource) -> RunOut {
         faults: run.faults.clone(),
         probes: run.probes.clone(),
         sig: run.sig.finish(),
-        transcript: run.transcript.finish(),
+        transcript: if prop == "C17" { crate::rng::mix64(run.transcript.finish() ^ query_digest) } else { run.transcript.finish() },
         nontrivial: run.nontrivial,
         aborted: run.aborted.clone(),
         finished: run.finished,
